@@ -825,7 +825,7 @@ pub fn check_script(ops: &[POp], h3_is_server: bool, split: bool, nreq_client: u
         return;
     }
     if let Some(s) = o.stuck.first() {
-        let kind = if s.contains("STOP_SENDING") { "write-pending-after-STOP_SENDING" } else { "read-pending-after-stream-end" };
+        let kind = if s.contains("queued in the transport") { "driver-pending-with-streams-queued" } else if s.contains("STOP_SENDING") { "write-pending-after-STOP_SENDING" } else { "read-pending-after-stream-end" };
         let op = s.split(' ').nth(1).unwrap_or("?");
         viol(rep, &format!("{}[{}]", kind, op), s.clone(), &case);
         return;
